@@ -30,7 +30,15 @@ type c17 struct {
 
 func c17Setup(nroots int, existing []int) *c17 {
 	roots := []string{"r1", "r2"}[:nroots]
-	cfg := stdConfig(roots...)
+	// the roots may be spelled in a non-canonical form in the configuration
+	spelled := append([]string{}, roots...)
+	switch nd.Choice("root-spelling", 3) {
+	case 1:
+		spelled[0] = "./r1"
+	case 2:
+		spelled[0] = "r1/"
+	}
+	cfg := stdConfig(spelled...)
 	cfg.Storage.MaxDirCount = nd.U64("maxDirCount")
 	c := &c17{roots: roots, extra: map[string]uint64{}}
 	for i, r := range roots {
@@ -124,8 +132,14 @@ func (c *c17) invariants() {
 
 // offers: after dir.Get every root offers at least one directory, each with room.
 func (c *c17) offers() {
-	_, err := c.w.c.Dir().Get(ctx)
+	offered, err := c.w.c.Dir().Get(ctx)
 	nd.Assert(err == nil, "H17.dir-get-ok")
+	for _, d := range offered {
+		// a candidate carries the free space of its root (a directory that regained room must
+		// be eligible again, not silently carry 0)
+		nd.Assert(c.isRoot(path.Clean(d.Root)), "H17.offered-directory-in-configured-root")
+		nd.Assert(d.Free == verifenv.Free[path.Clean(d.Root)], "H17.offered-directory-carries-root-free-space")
+	}
 	active, _ := c.w.c.DirRepo().VerifActive()
 	for _, r := range c.roots {
 		n := 0
